@@ -105,6 +105,7 @@ fn judge(c: &[u64], a: &[i128]) -> (Option<&'static str>, bool) {
             let nt = !rec || !active || r > 1;
             if a == [-98] { return (Some("harness: could not place the table (generator must avoid this address)"), false); }
             if a == [-96] { return (Some("the constructor modified the table"), nt); }
+            if a == [-94] { return (Some("the textual form (Display) of the reported error names the other reason"), nt); }
             let want: Vec<i128> = if !rec { vec![-30] } else if !active { vec![-31] } else { vec![0, r as i128] };
             if a != want.as_slice() {
                 return (Some(if !rec { "a table reference whose address is not of the recursive form must be reported NotRecursive" }
